@@ -21,6 +21,7 @@ import os
 
 from .lib import *
 from .re_lib import *
+from .run_lib import TRUSTED_T2
 from pyvc.bisim import reference_module
 from pyvc.stdstubs import deepcopy_value
 
@@ -35,8 +36,9 @@ TRUSTED = EM_ASSUMPTIONS + [
     "validators / normalizers: the representatives in contracts/refs/c17.py (accepting, rejecting, writing into the mapping they "
     "are handed; returning a new dict or the transformed argument, raising)",
     "the tracer is a recording fake",
-    "call.metadata (T2): asyncio / threading as modelled in contracts/aio.py (A-LOOP, A-MAIN); RunBundler replaced by its contract",
-]
+    "call.metadata (T2, one concrete two-run plan, two calls, no interruptions): the T2 base below; the RunBundler stand-in records the "
+    "metadata it is constructed with (= the RunStart content by the contract proved in _open_run.metadata through the real RunBundler.open_run)",
+] + TRUSTED_T2
 NOT_DECIDED = ("custom scan_id_source callables (an awaitable source is awaited); PersistentDict storage of RE.md (C43); metadata "
                "keys 'uid' / 'time' (event_model refuses them); validators that write into *nested* values of the shallow copy they get")
 
@@ -305,6 +307,10 @@ def metadata(I):
     h.check_opened(r, emitted, pre, 1)
 
 
+def shown_once(seen, want):
+    return len(seen) == 1 and Eq(seen[0], want)
+
+
 def exc_value_error(text):
     return lambda e: isinstance(e, Obj) and e.cls is BUILTIN_CLASSES["ValueError"] and e.attrs.get("args") == (text,)
 
@@ -335,11 +341,11 @@ def normalizer_validator(I):
     shown = h.want(pre, h.sid(1))
     if case == "validator rejects":
         h.check_refused(r, emitted, pre, 0, exc_value_error("rejected"))
-        w.check(O_SHOWN, len(h.vseen) == 1 and Eq(h.vseen[0], shown) and h.nseen == [], h.info("shown"))
+        w.check(O_SHOWN, And(shown_once(h.vseen, shown), h.nseen == []), h.info("shown"))
         return
     if case == "normalizer raises":
         h.check_refused(r, emitted, pre, 0, exc_value_error("normalizer refuses"))
-        w.check(O_SHOWN, len(h.vseen) == 1 and Eq(h.vseen[0], shown) and len(h.nseen) == 1 and Eq(h.nseen[0], shown), h.info("shown"))
+        w.check(O_SHOWN, And(shown_once(h.vseen, shown), shown_once(h.nseen, shown)), h.info("shown"))
         return
 
     def transform(d):
@@ -356,8 +362,7 @@ def normalizer_validator(I):
     st = h.check_opened(r, emitted, pre, 1, transform)
     if st is None:
         return
-    w.check(O_SHOWN, len(h.vseen) == 1 and Eq(h.vseen[0], shown) and (nmode == "default" or (len(h.nseen) == 1 and Eq(h.nseen[0], shown))),
-            h.info("shown"))
+    w.check(O_SHOWN, And(shown_once(h.vseen, shown), nmode == "default" or shown_once(h.nseen, shown)), h.info("shown"))
 
 
 @task("_open_run.sequence", PROP, functions=[f"{RE}._open_run", f"{MR}:default_scan_id_source"], expect=[O_MERGE, O_SCAN, O_FRAME, O_REG, O_REFUSED],
